@@ -18,10 +18,12 @@ using namespace opensmt;
 #define TR_D 77u        // the (distinct ...) term
 #define ARG0 200u       // its arguments are the terms ARG0 + k
 
-union RawEgraph { char raw; Egraph e; constexpr RawEgraph() : raw(0) {} ~RawEgraph() {} };     // constant-initialised, no constructor runs
+// typed raw storage: single-member unions whose member is never constructed (a union with a char member / byte buffer would turn
+// every field access into a byte_extract)
+union RawEgraph { Egraph e; RawEgraph() {} ~RawEgraph() {} };
 static RawEgraph rawEgraph;
-union RawEnode { char raw; Enode e; constexpr RawEnode() : raw(0) {} ~RawEnode() {} };
-static RawEnode en[NE];
+union RawEnodes { Enode e[NE]; RawEnodes() {} ~RawEnodes() {} };
+static RawEnodes enodes;
 struct FakePterm { uint32_t header; PTId id; SymRef sym; PTRef args[NARG]; };
 static FakePterm fakePterm;
 
@@ -34,7 +36,7 @@ static ERef eref(unsigned i) { return ERef{16u * i}; }
 extern "C" Enode & stub_enode(EnodeStore *, ERef r) {
     unsigned i = r.x >> 4;
     if ((r.x & 15u) != 0 || i >= NE) { g_foreign = true; i = 0; }
-    return en[i].e;
+    return enodes.e[i];
 }
 extern "C" ERef stub_getERef(EnodeStore const *, PTRef t) {
     unsigned k = t.x - ARG0;
@@ -44,26 +46,46 @@ extern "C" ERef stub_getERef(EnodeStore const *, PTRef t) {
 extern "C" char stub_getDistIndex(EnodeStore const *, PTRef t) { if (t.x != TR_D) g_foreign = true; return (char)g_index; }
 extern "C" Pterm const & stub_getPterm(Logic const *, PTRef t) { if (t.x != TR_D) g_foreign = true; return *reinterpret_cast<Pterm const *>(&fakePterm); }
 extern "C" void stub_doExplain(Egraph *, ERef a, ERef b, PtAsgn r) { g_explain_calls++; g_expl_a = a; g_expl_b = b; g_expl_r = r; }
-// fixed-capacity allocations of the minisat vectors (no realloc through symbolic pointers)
+// fixed-capacity buffers of the minisat vectors: static TYPED arrays (malloc'ed buffers are untyped byte arrays for CBMC), never reallocated
 static bool g_overflow;
+union RawUndos { Egraph::Undo u[4]; RawUndos() {} ~RawUndos() {} };
+static RawUndos undo_buf;
+static ERef eref_buf[4];
+typedef Map<ERef, ERef, ERefHash> REMap;
+static REMap::Pair pair_pool[NARG][2]; static unsigned g_pool_n;      // one 2-slot row per bucket vector that ever receives an entry
 extern "C" void stub_cap_undo(vec<Egraph::Undo> * v, int min_cap) {
     if (v->cap >= min_cap) return;
     if (min_cap > 4) { g_overflow = true; return; }
-    if (v->data == nullptr) v->data = (Egraph::Undo *)malloc(4 * sizeof(Egraph::Undo));
-    v->cap = 4;
+    v->data = undo_buf.u; v->cap = 4;
 }
-extern "C" void stub_cap_eref(vec<ERef> * v, int min_cap) {
+extern "C" void stub_cap_eref(vec<ERef> * v, int min_cap) {       // the only vec<ERef> alive is assertDist's local nodes_changed
     if (v->cap >= min_cap) return;
     if (min_cap > 4) { g_overflow = true; return; }
-    if (v->data == nullptr) v->data = (ERef *)malloc(4 * sizeof(ERef));
-    v->cap = 4;
+    v->data = eref_buf; v->cap = 4;
 }
-typedef Map<ERef, ERef, ERefHash> REMap;
 extern "C" void stub_cap_pair(vec<REMap::Pair> * v, int min_cap) {
     if (v->cap >= min_cap) return;
-    if (min_cap > 4) { g_overflow = true; return; }
-    if (v->data == nullptr) v->data = (REMap::Pair *)malloc(4 * sizeof(REMap::Pair));
-    v->cap = 4;
+    if (min_cap > 2 || (v->data == nullptr && g_pool_n >= NARG)) { g_overflow = true; return; }
+    if (v->data == nullptr) v->data = pair_pool[g_pool_n++];
+    v->cap = 2;
+}
+// the destructors of those vectors must not free the static buffers
+extern "C" void stub_vec_dtor_eref(vec<ERef> * v) { v->data = nullptr; v->sz = 0; v->cap = 0; }
+extern "C" void stub_vec_dtor_pair(vec<REMap::Pair> * v) { v->data = nullptr; v->sz = 0; v->cap = 0; }
+
+// array model of the local Map<ERef,ERef,ERefHash> (used by the spec egraph_dist_merge.json only; egraph_dist.json runs the real Map)
+static REMap::Pair g_map[NARG]; static unsigned g_map_n;
+extern "C" void stub_map_ctor(REMap * m) { m->table = nullptr; m->cap = 0; m->size = 0; g_map_n = 0; }
+extern "C" bool stub_map_has(REMap const *, ERef const & k) { bool r = false; for (unsigned i = 0; i < NARG; i++) if (i < g_map_n && g_map[i].key == k) r = true; return r; }
+extern "C" void stub_map_insert(REMap *, ERef const & k, ERef const & d) {
+    if (g_map_n >= NARG || stub_map_has(nullptr, k)) { g_overflow = true; return; }     // PRECONDITION of Map::insert: the key is not present
+    g_map[g_map_n].key = k; g_map[g_map_n].data = d; g_map_n++;
+}
+extern "C" ERef & stub_map_index(REMap *, ERef const & k) {
+    unsigned at = NARG;
+    for (unsigned i = 0; i < NARG; i++) if (i < g_map_n && g_map[i].key == k) at = i;
+    if (at == NARG) { g_overflow = true; at = 0; }                                       // PRECONDITION of Map::operator[]: the key is present
+    return g_map[at].data;
 }
 
 static unsigned g_root[NE]; static uint32_t g_dist[NE];
@@ -73,14 +95,14 @@ static unsigned g_nargs;
 static void build_classes() {
     for (unsigned i = 0; i < NE; i++) { g_root[i] = nondet_u8() & 7; VASSUME(g_root[i] < NE); g_dist[i] = nondet_u32(); }
     for (unsigned i = 0; i < NE; i++) VASSUME(g_root[g_root[i]] == g_root[i]);
-    for (unsigned i = 0; i < NE; i++) { en[i].e.root = eref(g_root[i]); en[i].e.dist_classes = g_dist[i]; }
+    for (unsigned i = 0; i < NE; i++) { enodes.e[i].root = eref(g_root[i]); enodes.e[i].dist_classes = g_dist[i]; }
 }
 static void build_distinct() {
     g_index = nondet_u8(); VASSUME(g_index < 32);
     g_nargs = nondet_u8(); VASSUME(g_nargs >= 2 && g_nargs <= NARG);
     for (unsigned k = 0; k < NARG; k++) { g_argmap[k] = nondet_u8() & 7; VASSUME(g_argmap[k] < NE); fakePterm.args[k] = PTRef{ARG0 + k}; }
     reinterpret_cast<Pterm *>(&fakePterm)->header.size = g_nargs;
-    g_foreign = false; g_overflow = false; g_explain_calls = 0;
+    g_foreign = false; g_overflow = false; g_explain_calls = 0; g_pool_n = 0;
     new (&rawEgraph.e.undo_stack_main) vec<Egraph::Undo>();
 }
 static bool is_arg_root(unsigned i) { bool r = false; for (unsigned k = 0; k < NARG; k++) if (k < g_nargs && g_root[g_argmap[k]] == i) r = true; return r; }
@@ -100,9 +122,9 @@ static void assert_then_undo(uint32_t const * pre) {
     bool r = eg->assertDist(PTRef{TR_D}, lit);
     VASSERT(!g_foreign && !g_overflow, "harness: only table enodes / the distinct term are looked up, vector capacities suffice");
     VASSERT(r == args_pairwise_separate(), "assertDist succeeds iff the arguments lie in pairwise different classes");
-    for (unsigned i = 0; i < NE; i++) VASSERT(en[i].e.root.x == 16u * g_root[i], "assertDist does not change the classes");
+    for (unsigned i = 0; i < NE; i++) VASSERT(enodes.e[i].root.x == 16u * g_root[i], "assertDist does not change the classes");
     if (!r) {
-        for (unsigned i = 0; i < NE; i++) VASSERT(en[i].e.dist_classes == pre[i], "a rejected distinction leaves every enode's distinction bits unchanged");
+        for (unsigned i = 0; i < NE; i++) VASSERT(enodes.e[i].dist_classes == pre[i], "a rejected distinction leaves every enode's distinction bits unchanged");
         VASSERT(eg->undo_stack_main.size() == undo_before, "a rejected distinction leaves no undo record");
         VASSERT(g_explain_calls == 1, "a rejected distinction is explained once");
         unsigned a = g_expl_a.x >> 4, b = g_expl_b.x >> 4;
@@ -116,7 +138,7 @@ static void assert_then_undo(uint32_t const * pre) {
     }
     VASSERT(g_explain_calls == 0, "no explanation for an accepted distinction");
     for (unsigned i = 0; i < NE; i++)
-        VASSERT(en[i].e.dist_classes == (pre[i] | (is_arg_root(i) ? bit : 0u)), "after assertDist exactly the roots of the arguments gained the bit, everything else is unchanged");
+        VASSERT(enodes.e[i].dist_classes == (pre[i] | (is_arg_root(i) ? bit : 0u)), "after assertDist exactly the roots of the arguments gained the bit, everything else is unchanged");
     VASSERT(eg->undo_stack_main.size() == undo_before + 1, "an accepted distinction leaves one undo record");
     if (eg->undo_stack_main.size() == undo_before + 1) {
         Egraph::Undo u = eg->undo_stack_main.last();
@@ -126,8 +148,8 @@ static void assert_then_undo(uint32_t const * pre) {
     eg->undoDistinction(PTRef{TR_D});
     VASSERT(!g_foreign, "harness: only table enodes are looked up");
     for (unsigned i = 0; i < NE; i++) {
-        VASSERT(en[i].e.dist_classes == pre[i], "undoDistinction restores every enode's distinction bits (no trace of the retracted distinct)");
-        VASSERT(en[i].e.root.x == 16u * g_root[i], "undoDistinction does not change the classes");
+        VASSERT(enodes.e[i].dist_classes == pre[i], "undoDistinction restores every enode's distinction bits (no trace of the retracted distinct)");
+        VASSERT(enodes.e[i].root.x == 16u * g_root[i], "undoDistinction does not change the classes");
     }
 }
 
@@ -150,11 +172,11 @@ extern "C" void h_dist_assert_undo() {
 extern "C" void h_dist_merge_unmerge() {
     uint32_t to = nondet_u32(), from = nondet_u32();
     VASSUME((to & from) == 0);      // Egraph::unmergeable: a common distinction forbids the merge
-    en[0].e.dist_classes = to; en[1].e.dist_classes = from;
-    Egraph::mergeDistinctionClasses(en[0].e, en[1].e);
-    VASSERT(en[0].e.dist_classes == (to | from) && en[1].e.dist_classes == from, "merge: the new root carries the union, the old root keeps its own bits");
-    Egraph::unmergeDistinctionClasses(en[0].e, en[1].e);
-    VASSERT(en[0].e.dist_classes == to && en[1].e.dist_classes == from, "unmerge restores both bit vectors");
+    enodes.e[0].dist_classes = to; enodes.e[1].dist_classes = from;
+    Egraph::mergeDistinctionClasses(enodes.e[0], enodes.e[1]);
+    VASSERT(enodes.e[0].dist_classes == (to | from) && enodes.e[1].dist_classes == from, "merge: the new root carries the union, the old root keeps its own bits");
+    Egraph::unmergeDistinctionClasses(enodes.e[0], enodes.e[1]);
+    VASSERT(enodes.e[0].dist_classes == to && enodes.e[1].dist_classes == from, "unmerge restores both bit vectors");
     VWITNESS("done");
 }
 
@@ -171,7 +193,7 @@ extern "C" void h_dist_under_merge() {
         size[r] = cnt;
         if (g_root[r] == r) { unsigned v = r, len = 0; for (unsigned k = 1; k <= NE; k++) { v = nxt[v]; if (v == r && len == 0) len = k; } VASSUME(len == cnt); }
     }
-    for (unsigned i = 0; i < NE; i++) { en[i].e.eq_next = eref(nxt[i]); en[i].e.eq_size = (int)size[i]; }
+    for (unsigned i = 0; i < NE; i++) { enodes.e[i].eq_next = eref(nxt[i]); enodes.e[i].eq_size = (int)size[i]; }
     build_distinct();
     uint32_t bit = 1u << g_index;
     for (unsigned i = 0; i < NE; i++) if (g_root[i] == i) VASSUME((g_dist[i] & bit) == 0);
@@ -179,26 +201,26 @@ extern "C" void h_dist_under_merge() {
     unsigned x = nondet_u8() & 7, y = nondet_u8() & 7;
     VASSUME(x < NE && y < NE && x != y && g_root[x] == x && g_root[y] == y && (g_dist[x] & g_dist[y]) == 0);
     unsigned root0[NE]; for (unsigned i = 0; i < NE; i++) root0[i] = g_root[i];
-    Egraph::mergeDistinctionClasses(en[x].e, en[y].e);
+    Egraph::mergeDistinctionClasses(enodes.e[x], enodes.e[y]);
     eg->mergeEquivalenceClasses(eref(x), eref(y));
     for (unsigned i = 0; i < NE; i++) {
-        VASSERT(en[i].e.root.x == 16u * (root0[i] == y ? x : root0[i]), "merge: the members of y's class are re-rooted to x, nothing else");
+        VASSERT(enodes.e[i].root.x == 16u * (root0[i] == y ? x : root0[i]), "merge: the members of y's class are re-rooted to x, nothing else");
         g_root[i] = root0[i] == y ? x : root0[i];
     }
-    VASSERT(en[x].e.eq_size == (int)(size[x] + size[y]), "merge: class sizes add up");
-    { unsigned v = x, len = 0; for (unsigned k = 1; k <= NE; k++) { v = en[v].e.eq_next.x >> 4; VASSUME(v < NE); if (v == x && len == 0) len = k; } VASSERT(len == size[x] + size[y], "merge: the two circular lists are spliced into one"); }
-    uint32_t mid[NE]; for (unsigned i = 0; i < NE; i++) mid[i] = en[i].e.dist_classes;
+    VASSERT(enodes.e[x].eq_size == (int)(size[x] + size[y]), "merge: class sizes add up");
+    { unsigned v = x, len = 0; for (unsigned k = 1; k <= NE; k++) { v = enodes.e[v].eq_next.x >> 4; VASSUME(v < NE); if (v == x && len == 0) len = k; } VASSERT(len == size[x] + size[y], "merge: the two circular lists are spliced into one"); }
+    uint32_t mid[NE]; for (unsigned i = 0; i < NE; i++) mid[i] = enodes.e[i].dist_classes;
     VASSERT((mid[x] & bit) == 0, "the merged root does not carry the bit of a distinction that is not asserted");
     assert_then_undo(mid);
     // undo the merge (the corresponding steps of Egraph::undoMerge)
     eg->unmergeEquivalenceClasses(eref(x), eref(y));
-    Egraph::unmergeDistinctionClasses(en[x].e, en[y].e);
+    Egraph::unmergeDistinctionClasses(enodes.e[x], enodes.e[y]);
     VASSERT(!g_foreign, "harness: only table enodes are looked up");
     for (unsigned i = 0; i < NE; i++) {
-        VASSERT(en[i].e.root.x == 16u * root0[i], "undoing the merge restores every root");
-        VASSERT(en[i].e.eq_next.x == 16u * nxt[i], "undoing the merge restores the circular lists");
-        VASSERT(en[i].e.eq_size == (int)size[i] || root0[i] != i, "undoing the merge restores the class sizes of the roots");
-        VASSERT(en[i].e.dist_classes == g_dist[i], "undoing the merge restores every distinction bit vector");
+        VASSERT(enodes.e[i].root.x == 16u * root0[i], "undoing the merge restores every root");
+        VASSERT(enodes.e[i].eq_next.x == 16u * nxt[i], "undoing the merge restores the circular lists");
+        VASSERT(enodes.e[i].eq_size == (int)size[i] || root0[i] != i, "undoing the merge restores the class sizes of the roots");
+        VASSERT(enodes.e[i].dist_classes == g_dist[i], "undoing the merge restores every distinction bit vector");
     }
     VWITNESS("merged-asserted-undone-unmerged");
     if (size[y] >= 2 && size[x] >= 2) { VWITNESS("two-multi-member-classes-merged"); }
